@@ -1,6 +1,6 @@
 // ---------------------------------------------------------------------------------------------
 // Unit history: generic sequence toolkit (filter algebra, multisets, bucket extensionality).  All proved.
-// Needs hof.rs (lemma_filter_all) and analyze_l2.rs (lemma_filter_push).
+// Needs hof.rs (lemma_filter_all) and history_vocab.rs (lemma_filter_push).
 
 pub open spec fn p_and<A>(p: spec_fn(A) -> bool, q: spec_fn(A) -> bool) -> spec_fn(A) -> bool { |x: A| p(x) && q(x) }
 
